@@ -6,6 +6,7 @@
 -/
 import PV.Model.ChanWindowLemmas
 import PV.Generated.C19
+import PV.Generated.ChanLock
 namespace PV.Props.C19
 open PV.Chan
 
@@ -14,6 +15,16 @@ open PV.Chan
 theorem constants_eq_generated :
     MIN_PACKET_SIZE = PV.Generated.C19.MIN_PACKET_SIZE ∧ MAX_WINDOW_SIZE = PV.Generated.C19.MAX_WINDOW_SIZE ∧
     PV.Generated.C19.MIN_PACKET_SIZE = 4096 ∧ PV.Generated.C19.MAX_WINDOW_SIZE = 4294967295 := by
+  decide
+
+/-- **`out_window_size` is only touched under `self.lock`** once the channel is open: every read and every write
+    in class Channel (table generated from the AST of channel.py on this run; helpers documented "you are holding
+    the lock" count only if every call site is locked) — except the constructor, `_set_remote_channel` (runs before
+    the channel is active) and the read-only `__repr__`.  This is what makes "reserve" and "adjust" atomic regions
+    of the model; a read outside the lock that feeds a later locked write is a lost update. -/
+theorem window_accesses_locked :
+    ∀ a ∈ PV.Generated.ChanLock.windowAccesses,
+      a.1 ≠ "__init__" → a.1 ≠ "_set_remote_channel" → a.1 ≠ "__repr__" → a.2.2 = true := by
   decide
 
 /-- the clamp the model applies to the peer-advertised maximum packet size (`sanitizePkt` in `init`) is in the
